@@ -1,7 +1,7 @@
 """C13 - EKF / UKF / PF: provenance clauses."""
 import ast
 from ..core import RuleResult, Finding, AnalysisError, dotted, src, norm_construct
-from ..expr import inline_straight, returns_of, dump, contains, is_call_to, subst
+from ..expr import inline_straight, returns_of, dump, contains, is_call_to, subst, rv
 from .. import paths
 
 EKF = 'pypose.module.ekf'
@@ -52,10 +52,10 @@ def rule_gain(repo, tier):
                      'the posterior mean is predicted state + K @ innovation', floor=2)
     f = repo.func(EKF, 'EKF.forward')
     rets = returns_of(f.node)
-    if len(rets) != 1 or not isinstance(rets[0].value, ast.Tuple) or len(rets[0].value.elts) != 2:
+    v0 = rv(f.node, rets[0]) if len(rets) == 1 else None
+    if not isinstance(v0, ast.Tuple) or len(v0.elts) != 2:
         raise AnalysisError('C13.GAIN: EKF.forward no longer returns (state, covariance)')
-    inl = inline_straight(f.node, upto=rets[0])
-    xp, Pp = [inl.value(e) for e in rets[0].value.elts]
+    xp, Pp = v0.elts
 
     def is_prop(n):
         # A @ P @ A.mT + Q : an Add whose one side mentions Q and whose other side is a product with model.A twice and the prior P
@@ -215,10 +215,10 @@ def rule_pf(repo, tier):
     res = RuleResult('C13.PF', 'PF: particles ~ N(x, n P) -> model -> weights(y, ye, R) -> resample -> mean / covariance + Q', floor=4)
     f = repo.func(PF, 'PF.forward')
     rets = returns_of(f.node)
-    if len(rets) != 1 or not isinstance(rets[0].value, ast.Tuple) or len(rets[0].value.elts) != 2:
+    v0 = rv(f.node, rets[0]) if len(rets) == 1 else None
+    if not isinstance(v0, ast.Tuple) or len(v0.elts) != 2:
         raise AnalysisError('C13.PF: PF.forward no longer returns (state, covariance)')
-    inl = inline_straight(f.node, upto=rets[0])
-    x, P = [inl.value(e) for e in rets[0].value.elts]
+    x, P = v0.elts
 
     def chk(name, ok, msg):
         res.inst({'function': f.fq, 'clause': name, 'ok': ok})
